@@ -357,6 +357,8 @@ class HistoryGen:
             if op is not None:
                 if op["k"] in ("delay", "target", "add", "adddmm") and r.random() < 0.12:
                     op["kw"] = True        # the call is written with keyword arguments (recorded as such)
+                elif op["k"] in ("delay", "addeom", "eomon", "eomoff") and r.random() < 0.12:
+                    op["pos"] = True       # optional arguments (at_rest, protocol, correct_phase_drift) given positionally
                 return op
         return self.try_op("delay") or self.op_declare()
 
